@@ -197,6 +197,22 @@ func c06Eval(sets []*c06Set, nPerm int, perSite bool, r *kit.Rng, budget *kit.Bu
 					add(s, load.OrderSpec{Mode: "sorted"}, "textual-order:"+kind, fmt.Sprintf("definitions under %q are not in textual order (uses expanded in place, augments appended): written %v, compiled %v", key, want, got), ref.LogHash)
 				}
 			}
+			for key, want := range s.Set.Lists {
+				got := ref.OrderTrace[key]
+				if _, there := ref.OrderTrace["seen:"+key[strings.Index(key, ":")+1:]]; !there && !strings.HasPrefix(key, "rev:") && !strings.HasPrefix(key, "idbase:") {
+					continue // written in a grouping nobody uses, or removed by the deviation
+				}
+				if strings.Join(got, "\x00") != strings.Join(want, "\x00") {
+					kind := key[:strings.Index(key, ":")]
+					add(s, load.OrderSpec{Mode: "sorted"}, "textual-order:"+kind, fmt.Sprintf("%s members of %q: written %v, compiled %v", kind, key[len(kind)+1:], want, got), ref.LogHash)
+				}
+				if kind := key[:strings.Index(key, ":")]; kind == "enum" {
+					// the schema-level enum list must agree with the value-level one
+					if g2 := ref.OrderTrace["enums:"+key[5:]]; strings.Join(g2, "\x00") != strings.Join(want, "\x00") {
+						add(s, load.OrderSpec{Mode: "sorted"}, "textual-order:enum", fmt.Sprintf("enum statements of %q: written %v, compiled %v", key[5:], want, g2), ref.LogHash)
+					}
+				}
+			}
 			for key, want := range s.Set.Cases {
 				got := ref.OrderTrace["case:"+key]
 				if strings.Join(got, " ") != strings.Join(want, " ") {
